@@ -24,6 +24,11 @@ HARNESS = os.path.join(ROOT, "harness")
 # seeded regressions in a scratch worktree without disturbing /repo); registered checks never set them.
 RUNS = os.environ.get("VERIF_RUNS") or os.path.join(ROOT, "runs")
 REPO = os.environ.get("VERIF_REPO") or "/repo"
+# VERIF_COVER=<dir>: build the harnesses with coverage instrumentation of /repo's packages and collect the counters there
+COVER = os.environ.get("VERIF_COVER") or ""
+if COVER:
+    os.makedirs(COVER, exist_ok=True)
+    os.environ["GOCOVERDIR"] = COVER
 EVID = os.path.join(ROOT, "evidence") if not os.environ.get("VERIF_RUNS") else os.path.join(RUNS, "evidence")
 NCPU = 16
 
@@ -242,6 +247,15 @@ def build_harness(pkg, tags="verif", race=False, timeout=900):
     if race:
         cmd.append("-race")
         env["CGO_ENABLED"] = "1"
+    if COVER and not race:
+        # integrator tool lib/tie_coverage.py: which functions of /repo the correspondence run actually executes
+        # (go 1.23 emits no counters unless the main package is instrumented too, and patterns do not reach the
+        # replaced module: list the packages explicitly)
+        lc = ["go", "list", "-tags", tags, "-deps"] + ([a for a in cmd if a.startswith("-modfile=")]) + ["./" + pkg]
+        rcl, outl = sh(lc, cwd=HARNESS, env=env, timeout=300)
+        pk = [l.strip() for l in outl.split("\n") if l.startswith(("github.com/pbenner/autodiff", "adharness"))]
+        if rcl == 0 and pk:
+            cmd += ["-cover", "-coverpkg=" + ",".join(pk)]
     cmd.append("./" + pkg)
     rc, out = sh(cmd, cwd=HARNESS, env=env, timeout=timeout)
     if rc != 0:
